@@ -39,7 +39,7 @@ type nbRun struct {
 	mu      sync.Mutex
 	recs    []*cbRec
 	pending int64
-	allDone chan struct{}
+	allDone chan struct{} // buffered(1): a token whenever pending reaches zero
 	lastDo  atomic.Value // time.Time
 	ccs     []*nbhttp.ClientConn
 	byID    sync.Map // id -> *cbRec
@@ -383,18 +383,17 @@ func (e *env) runNbClient() {
 	if res != "done" {
 		atomic.StoreInt32(&e.final, 1)
 	}
+	// from here on pending only falls: the callback that brings it to zero
+	// leaves a token in allDone
 	waitPending := func(max time.Duration) string {
-		pz := make(chan struct{})
-		var quit int32
-		go func() {
-			for atomic.LoadInt64(&n.pending) > 0 && atomic.LoadInt32(&quit) == 0 {
-				time.Sleep(2 * time.Millisecond)
+		for {
+			if atomic.LoadInt64(&n.pending) <= 0 {
+				return "done"
 			}
-			close(pz)
-		}()
-		r := e2e.WaitQuiet(pz, prog, max)
-		atomic.StoreInt32(&quit, 1)
-		return r
+			if r := e2e.WaitQuiet(n.allDone, prog, max); r != "done" {
+				return r
+			}
+		}
 	}
 	if res == "done" && !c.CliKill {
 		// exchanges nobody waited for may still be in flight: let them finish.
